@@ -19,6 +19,21 @@ CLAIMED = {
             "Locks", "5 C12"),
 }
 
+CLAIMED["C11"] = ("model_checking",
+    "QsImpl.tla transcribes qs.hpp with one action per atomic access and per mutex operation; TLC checks "
+    "'callback/barrier only after a full grace period and after everything the other agents did before their "
+    "quiescent state' (happens-before ghost instantiated with the memory orders extracted from the running code), "
+    "at-most-once, no assertion reachable, no ack underflow, and under strong fairness that every registered "
+    "callback fires and quiescent_barrier returns - for 2 agents at atomic-access granularity and 3 agents at "
+    "access/whole-operation granularity. Every transition of the 2-agent graph is replayed on the real "
+    "qs_domain under a cooperative scheduler, together with random schedules of 2-6 agents; each recorded "
+    "trace is validated against the algorithm-independent property-layer trace spec QsTrace.tla.",
+    "bounds: 2-3 agents, 1-2 nodes, <=5 calls per agent, period counter <= 9; interleaving semantics with "
+    "release/acquire happens-before (no stale reads); scheduler yields only at seam points (atomic accesses, mutex "
+    "calls, callbacks); offline() while a period is deferred is excluded (documented precondition)",
+    "TLA+ spec at atomic-access granularity + TLC (safety, liveness, negative controls); TLC schedules replayed into the real code; recorded traces validated by TLC against a property-layer trace spec; memory orders extracted from traces parametrise the model",
+    "QS", "5 C11")
+
 NOT_YET = "check not built yet in this round (see DESIGN.md build order); not claimed until its TLA+ spec and conformance harness exist"
 
 checks, na = [], []
